@@ -206,6 +206,63 @@ def run(ctx):
                     continue
             if not moved:
                 break
+    # ---- one mutator object lives for a whole pass while the declarations change: a scripted history in which a name is
+    # freed (its declaration erased) and then taken by a symbol of another sort; whatever the replacing mutators propose at
+    # every step must be well-sorted for the declarations of THAT step
+    hist_text = ('(set-logic ALL)\n(declare-const a Int)\n(declare-const b Int)\n(declare-const bb Bool)\n(declare-const k Int)\n'
+                 '(assert (or bb (> (+ a k) 5)))\n(check-sat)\n')
+    moves = [None,
+             ('EraseNode', lambda t: 'declare-const b Int' not in t and all(x in t for x in ('declare-const bb', 'declare-const a ', 'declare-const k', '(+ a k)', 'or bb'))),
+             ('SimplifySymbolNames', lambda t: 'declare-const b Bool' in t),
+             ('EraseNode', lambda t: 'declare-const k Int' not in t and '(+ a k)' in t)]
+    persistent = P.all_mutators()
+    exprs = impl.parse(hist_text)
+    hist_calls, hist_meta = [], []
+    for mv in moves:
+        if mv is not None:
+            nxt = None
+            for p in P.enumerate_proposals(exprs, only=[mv[0]], mutator_objects=persistent):
+                if 'error' in p:
+                    continue
+                try:
+                    new = P.apply(exprs, p['simp'])
+                except Exception:  # noqa
+                    continue
+                if isinstance(new, list) and mv[1](impl.render(new, 'default')):
+                    nxt = impl.nodes.reduplicate(new)
+                    break
+            if nxt is None:
+                ctx.count('scripted history: move not available')
+                break
+            exprs = nxt
+        shapes = impl.to_shapes(exprs)
+        text_now = impl.render(exprs, 'default')
+        for p in P.enumerate_proposals(exprs, only=['Constants', 'ReplaceByVariable', 'IntroduceFreshVariable'], mutator_objects=persistent):
+            if 'error' in p or p['node'].id not in set(impl.ids_of(exprs)):
+                continue
+            v = p['simp'].substs.get(p['node'].id)
+            if v is None:
+                continue
+            extra = []
+            for d_ in p['simp'].fresh_vars:
+                ds = impl.to_shape(d_)
+                if isinstance(ds, tuple) and len(ds) == 3 and ds[0] == 'declare-const':
+                    extra.append((ds[1], ds[2]))
+            hist_calls.append((50, [w_shapes(shapes), [], w_shape(impl.to_shape(p['node']))]))
+            hist_calls.append((50, [w_shapes(shapes), [[w_str(n_), w_shape(so_)] for n_, so_ in extra], w_shape(impl.to_shape(v))]))
+            hist_meta.append((text_now, p['cls'], str(p['node'])[:120], str(v)[:120]))
+    hres = model.batch(hist_calls)
+    for k, (text_now, cls_, node_, repl_) in enumerate(hist_meta):
+        wn, wr = hres[2 * k], hres[2 * k + 1]
+        ctx.count('scripted history: replacements re-typed')
+        if wn == []:
+            continue        # not a term (head symbol, declaration, ...)
+        ctx.case(['hist', text_now, cls_, node_, repl_], True)
+        if wr == [] or r_shape(wr[0]) != r_shape(wn[0]):
+            ctx.violation('impl-violation', input=text_now, mutator=cls_, term=node_,
+                          observed=f'after a history of accepted simplifications {cls_} proposes {repl_}, which has '
+                                   f'{"no sort" if wr == [] else "sort " + smtgen.render_shape(r_shape(wr[0]))} under the declarations of the current input',
+                          expected=f'a replacement of sort {smtgen.render_shape(r_shape(wn[0]))}')
     for (text, node, got_s), w in zip(walk_meta, model.batch(walk_calls)):
         ctx.count('sorts of reduced forms re-typed')
         if w == []:
